@@ -289,9 +289,10 @@ def statements(ctx):
             if ctx.expired():
                 complete = False
                 break
-            stmt, pk = G.gen_statement(rng, kind, rnd, depth=rng.choice((0, 1, 2, 3)), nest=1)
+            # small operands and flat blocks first, so that the first failures reported are small
+            stmt, pk = G.gen_statement(rng, kind, rnd, depth=rnd % 3, nest=0 if rnd < 24 else 1)
             if pk.overflow:      # all variant combinations of this production are done: random ones from here
-                stmt, pk = G.gen_statement(rng, kind, None, depth=rng.choice((0, 1, 2, 3)), nest=2)
+                stmt, pk = G.gen_statement(rng, kind, None, depth=rng.choice((0, 1, 2, 3)), nest=rng.choice((0, 1, 2)))
             _stmt_case(ctx, G.Body([stmt]), None)
         if not complete:
             break
